@@ -236,7 +236,8 @@ def tname(tx):
         return tx
     h, *a = tx
     if h == "L":
-        return "L[" + ",".join(repr(x) for x in a) + "]"
+        # the values of a Literal form a set: canonical name independent of their order
+        return "L[" + ",".join(sorted((repr(x) for x in a), key=lambda r: (r[:1] in "'\"", r))) + "]"
     if h in ("H", "CC", "Rx", "SW", "EW", "Df"):
         return f"{h}[{a[0]!r}]"
     if h == "HK":
